@@ -247,6 +247,20 @@ class RtaModel:
 
     def _extract(self):
         top = self.top
+        # `let mut m = 0; for a in SPACE { m = m.max(rta(a)?) } Ok(m)`: the first error, otherwise the maximum, Ok(0) when
+        # there is no offset -- the value of max_response_time(SPACE.map(|a| Ok(rta(a)?)))
+        if is_tag(top, 'ok'):
+            inner = T.unroot(top[1])
+            zero_default = False
+            if is_tag(inner, 'optor') and inner[2] == T.const(0):
+                inner, zero_default = T.unroot(inner[1]), True
+            elif is_tag(inner, 'max') and len(inner[1]) == 2 and T.const(0) in inner[1]:
+                inner, zero_default = T.unroot([c for c in inner[1] if c != T.const(0)][0]), True
+            if zero_default and is_tag(inner, 'maxof') and is_tag(T.unroot(inner[1]), 'map'):
+                m = T.unroot(inner[1])
+                if m[2][0] == 'lam' and any(isinstance(y, tuple) and len(y) == 2 and y[0] == 'try' for y in T.subterms(m[2][2])):
+                    top = ('call', MAXRT, (('map', m[1], ('lam', m[2][1], ('ok', m[2][2]))),))
+        self.top = top
         self.family = 'FIFO' if is_tag(top, 'ok') else 'BW'
         if is_tag(top, 'call') and top[1] == MAXRT:
             # max_response_time(map(SPACE, λA. ok(RES)))
@@ -322,6 +336,10 @@ class RtaModel:
         lam = T.unroot(self.top[2][0])[2] if self.combiner == 'max_response_time' else None
         if lam is not None:
             t = T.substitute(t, {T.bv(lam[1]): A})
+        # .. or inside a `for` loop over the offsets that was reduced to a maximum: its offset is the loop's item
+        for e in self.ev.events:
+            if e['kind'] == 'loop' and e.get('reduced') and e['depth'] == 0:
+                t = T.substitute(t, {('item', e['node'].get('_nid')): A})
         return t
 
     def closure_nodes(self):
